@@ -9,6 +9,7 @@ import ALV.Lemmas.C10Min
 import ALV.Lemmas.C10Uniq
 import ALV.Lemmas.C10CovMin
 import ALV.Lemmas.C10Call
+import ALV.Lemmas.C12Gauss
 import ALV.Common.Audit
 
 namespace ALV.Props.C10
@@ -453,7 +454,7 @@ theorem levinsonCall_spec (r : List K) (o : OrdArg) (a : List K) (e : K)
         · left; omega
       rw [levinsonCall_int r i hr] at h
       exact ⟨h, rfl⟩
-    | real q => simp [levinsonCall] at h
+    | real q fl => simp only [levinsonCall] at h; split at h <;> cases h
   rw [← key.2]
   exact ⟨levinson_normal_eqs r _ a e key.1, levinson_error r _ a e key.1⟩
 
@@ -467,12 +468,15 @@ theorem levinsonCall_negative (r : List K) (i : Int) (hi : i < 0) (hr : r ≠ []
   simp [coef, adiff]
 
 /-- the exceptions of a `levinson_durbin` call: ParCorError (a zero prediction error of a smaller
-order), IndexError (empty lag list with a default / negative order), TypeError (non-int order) -/
+order), IndexError (empty lag list with a default / negative order), TypeError (non-int order; a
+Fraction ≥ len(r) gives ValueError instead: `Stream.take` hands it to `islice`) -/
 theorem levinsonCall_raises_kind (r : List K) (o : OrdArg) (e : String)
     (h : levinsonCall r o = .error e) :
-    e = "ParCorError" ∨ (e = "IndexError" ∧ r = []) ∨ (e = "TypeError" ∧ ∃ q, o = .real q) := by
+    e = "ParCorError" ∨ (e = "IndexError" ∧ r = []) ∨
+      ((e = "TypeError" ∨ e = "ValueError") ∧ ∃ q fl, o = .real q fl) := by
   have hnone : levinson r none = .error e →
-      e = "ParCorError" ∨ (e = "IndexError" ∧ r = []) ∨ (e = "TypeError" ∧ ∃ q, o = .real q) := by
+      e = "ParCorError" ∨ (e = "IndexError" ∧ r = []) ∨
+        ((e = "TypeError" ∨ e = "ValueError") ∧ ∃ q fl, o = .real q fl) := by
     intro h
     by_cases hr : r = []
     · subst hr
@@ -492,9 +496,11 @@ theorem levinsonCall_raises_kind (r : List K) (o : OrdArg) (e : String)
       · rw [levinsonCall_negative r i hi hr] at h; cases h
     · rw [levinsonCall_int r i (.inl (by omega))] at h
       exact .inl (levinson_raises_kind r _ e h)
-  | real q =>
-    simp [levinsonCall] at h
-    exact .inr (.inr ⟨h.symm, q, rfl⟩)
+  | real q fl =>
+    simp only [levinsonCall] at h
+    split at h <;> injection h with h
+    · exact .inr (.inr ⟨.inr h.symm, q, fl, rfl⟩)
+    · exact .inr (.inr ⟨.inl h.symm, q, fl, rfl⟩)
 
 /-- **C10.5e** `lpc.kautocor(blk, order)` for every spelling of the order: normal equations of
 `acorr(blk, order)`, `error` = energy of `a` convolved with the zero-extended block. -/
@@ -596,15 +602,36 @@ example : levinsonCall [(4 : Rat), 2, 1] (.int (-5)) = .ok ([1], 4) := by decide
 example : levinsonCall [(4 : Rat), 2, 1] .omitted = levinsonCall [(4 : Rat), 2, 1] (.int 2) := by
   decide +kernel
 example : levinsonCall ([] : List Rat) (.int (-1)) = .error "IndexError" := by decide +kernel
-example : levinsonCall [(4 : Rat), 2, 1] (.real 2) = .error "TypeError" := by decide +kernel
+example : levinsonCall [(4 : Rat), 2, 1] (.real 2 true) = .error "TypeError" ∧
+    levinsonCall [(4 : Rat), 2, 1] (.real 3 true) = .error "TypeError" ∧
+    levinsonCall [(4 : Rat), 2, 1] (.real 3 false) = .error "ValueError" := by decide +kernel
 example : kautocorCall [(1 : Rat), 2, 3] (.int 1) = .ok ([1, -4/7], 66/7) := by decide +kernel
 example : kautocorCall [(1 : Rat), 2, 3] (.int (-1)) = .error "IndexError" := by decide +kernel
-example : lagMatrixCall [(1 : Rat), 2, 3] (.real 3) = .error "ValueError" ∧
-    lagMatrixCall [(1 : Rat), 2, 3] (.real 2) = .error "TypeError" ∧
+example : lagMatrixCall [(1 : Rat), 2, 3] (.real 3 true) = .error "ValueError" ∧
+    lagMatrixCall [(1 : Rat), 2, 3] (.real 2 false) = .error "TypeError" ∧
     lagMatrixCall [(1 : Rat), 2, 3] (.int (-2)) = .ok [] := by decide +kernel
 example : lpcCall noNumpy .autocor [(0 : Rat), 0] (.int 100) = .error "ModuleNotFoundError" ∧
     kautocorCall [(0 : Rat), 0] (.int 100) = .error "ParCorError" := by decide +kernel
 example : lpcCall noNumpy .autocor [(1 : Rat), 2] (.int 5) = .error "ModuleNotFoundError" := by
+  decide +kernel
+
+/-- the canonical name of a strategy selects it -/
+theorem strategyOf_name (s : Strat) : strategyOf s.name = some s := by cases s <;> decide
+
+/-! ### complex samples: the executable Gaussian rationals of the driver are a field -/
+
+/-- the theorems above hold for the Gaussian rationals the driver computes with (`Field GRat`:
+`Lemmas/C12Gauss.lean`); its division is multiplication by `conj x / |x|²` -/
+theorem levinson_gauss (r : List ALV.C12.GRat) (order : Option Nat) (a : List ALV.C12.GRat)
+    (e : ALV.C12.GRat) (h : levinson r order = .ok (a, e)) :
+    IsYuleWalker r a (orderOf r order) ∧ e = predError r a (orderOf r order) :=
+  ⟨levinson_normal_eqs r order a e h, levinson_error r order a e h⟩
+
+theorem gauss_inv (x : ALV.C12.GRat) :
+    (ALV.C12.GRat.inv x).re = x.re / (x.re * x.re + x.im * x.im) ∧
+    (ALV.C12.GRat.inv x).im = -x.im / (x.re * x.re + x.im * x.im) := ⟨rfl, rfl⟩
+
+example : levinson [(⟨2, 1⟩ : ALV.C12.GRat), ⟨0, 1⟩] (some 1) = .ok ([1, ⟨-1/5, -2/5⟩], ⟨12/5, 4/5⟩) := by
   decide +kernel
 
 end ALV.Props.C10
